@@ -1,10 +1,65 @@
-(* C04 Stored versions are immutable; a taken name is never reused.
-   (The semantic theorem "no store file is changed or removed, under every
-   oracle" is added from StoreProofs when available.) *)
-From K Require Import Str World Progs Handler Hoare Confine Confine2 ExtProofs.
+(* C04 Stored versions are immutable; a taken name is never reused. *)
+From K Require Import Str World Progs Handler Hoare Confine Confine2 ExtProofs StoreFs StoreLogic StoreProgs StoreProofs.
+
+(* [preserved c f f']: every file under the store root or the project store root
+   of configuration c that exists in f exists in f' under the same name with the
+   same inode and the same bytes.
+   [disjoint_locs c]: the six configured locations are pairwise different and
+   not nested in one another (string level), non-empty, the queue is not "/".
+   [SInv c h f]: inode numbers are below the allocation counter; no offset file
+   and not the journal shares an inode with a file of the store, project store
+   or unstable project tree; the queue directory does not nest with the stores. *)
+
+(* Under EVERY oracle -- any combination of failing calls, short transfers and a
+   crash at any call -- a timeout pass changes or removes no file of the store
+   or project store; the invariant holds again afterwards. *)
+Theorem C04_timeout_store_immutable : forall (o : oracle) (w : world) (rev : bool) (h : handler),
+  disjoint_locs (h_cfg h) ->
+  SInv (h_cfg h) h (w_fs w) ->
+  let res := handle_timeout rev h o w in
+  preserved (h_cfg h) (w_fs w) (w_fs (snd res)) /\
+  SI (h_cfg h) (h_journal h) (w_fs (snd res)) /\
+  (forall r h', fst res = Some (r, h') ->
+     h_cfg h' = h_cfg h /\ SInv (h_cfg h') h' (w_fs (snd res))).
+Proof. exact handle_timeout_store_immutable. Qed.
+Print Assumptions C04_timeout_store_immutable.
+
+(* the same for whole histories of events (timeout passes, executions, writes),
+   also when the run ends in a crash: across restarts the statement chains
+   because load_handler re-establishes the invariant (next theorem) *)
+Theorem C04_history_store_immutable : forall (evs : list event) (o : oracle) (w : world) (h : handler),
+  disjoint_locs (h_cfg h) ->
+  SInv (h_cfg h) h (w_fs w) ->
+  preserved (h_cfg h) (w_fs w) (w_fs (snd (run_events evs h o w))).
+Proof. exact history_store_immutable. Qed.
+Print Assumptions C04_history_store_immutable.
+
+Theorem C04_restart_store_immutable :
+  forall (o : oracle) (w : world) (c : config) (cp : option str) (cpl : nat),
+  disjoint_locs c -> SI c None (w_fs w) ->
+  let res := load_handler c cp cpl o w in
+  preserved c (w_fs w) (w_fs (snd res)) /\
+  SI c None (w_fs (snd res)) /\
+  (forall h, fst res = Some (Some h) -> h_cfg h = c /\ SInv c h (w_fs (snd res))).
+Proof. exact load_handler_store_immutable. Qed.
+Print Assumptions C04_restart_store_immutable.
+
+(* a configuration reload keeps the files of both the old and the new stores *)
+Theorem C04_reload_store_immutable :
+  forall (o : oracle) (w : world) (pid : N) (path : str) (n : config) (h : handler),
+  disjoint_locs (h_cfg h) -> SInv (h_cfg h) h (w_fs w) ->
+  disjoint_locs n -> SI n (h_journal h) (w_fs w) -> qdir_ok n (q_dir (h_q h)) ->
+  let res := handle_close_write pid path (Some n) h o w in
+  preserved (h_cfg h) (w_fs w) (w_fs (snd res)) /\ preserved n (w_fs w) (w_fs (snd res)).
+Proof.
+  intros o w pid path n h D HS Dn HSn Hq res.
+  destruct (handle_close_write_store_immutable o w pid path n h D HS Dn HSn Hq) as [H1 [H2 _]].
+  split; assumption.
+Qed.
+Print Assumptions C04_reload_store_immutable.
 
 (* the candidate names are tried in this order: base, then -1, -2, ... before
-   the extension; increments never restart the count *)
+   the extension *)
 Theorem C04_candidate_names : forall (root rel version : str) (k : nat),
   current_path (Nat.iter k increment (create_store_path root rel version)) =
   match k with
@@ -16,14 +71,16 @@ Proof.
 Qed.
 Print Assumptions C04_candidate_names.
 
-(* under every oracle, the only calls that create, remove or open for writing
-   anything are confined to the configured locations; in particular the call
-   alphabet of the model contains no rename and no truncating open, and files in
-   the store are only ever opened with O_CREAT|O_EXCL (COpenExcl) *)
-Theorem C04_calls_confined : forall (L : list str) (rev : bool) (h : handler) (o : oracle) (w : world),
-  hinv2 L h -> log_all (conf L) w -> log_all (conf L) (snd (handle_timeout rev h o w)).
+(* non-vacuity: a concrete configuration and world satisfy the hypotheses, and
+   for every oracle the stored version /s/a/v1 keeps its inode and bytes, while
+   the fault-free run does store a new version *)
+Example C04_example : forall (o : oracle) (rev : bool),
+  let w' := snd (handle_timeout rev StoreExample.h0 o StoreExample.w0) in
+  and (disjoint_locs (h_cfg StoreExample.h0))
+   (and (SInv (h_cfg StoreExample.h0) StoreExample.h0 (w_fs StoreExample.w0))
+    (and (lookup (w_fs w') (cons "/" (cons "s" (cons "/" (cons "a" (cons "/" (cons "v" (cons "1" nil)))))))%char = Some (NFile 1))
+         (f_bytes (get_file (w_fs w') 1) = (cons "o" (cons "l" (cons "d" nil)))%char))).
 Proof.
-  intros L rev h o w Hh Hw. pose proof (lokv_handle_timeout L rev h Hh o w I Hw) as H.
-  destruct (handle_timeout rev h o w) as [[r|] w']; simpl; [destruct H; assumption | assumption].
+  intros o rev w'. destruct StoreExample.hyps_hold as [_ [D [HS _]]].
+  split; [exact D|]. split; [exact HS|]. apply StoreExample.stored_version_survives.
 Qed.
-Print Assumptions C04_calls_confined.
